@@ -30,6 +30,7 @@ RULE = (
     "by name, by letter, mixed) x (x array: none, over each ordered subset of the array's dims) x (line, scatter, "
     "area for plotly; line, scatter for pyplot). Non-trivial = figure with >= 1 link / >= 2 plotted points. "
     "Distinct by construction."
+    " Also: process names contained in one another, a falsy slice item, display names (shared labels, renamed / excluded flows), a same-title figure left open."
 )
 ASSUMPTIONS = [
     "figure contents are read from fig.data / ax.lines / ax.collections; rendering itself (pixels) is not checked",
